@@ -862,6 +862,9 @@ func gen(x *hxlib.Ctx) {
 	// 3. the same decision reached through block proposal and block import
 	genChain(x, kr)
 
+	// 4. the fast-sync path: block + list handed to a started consensus engine
+	genFastSync(x, kr)
+
 	// canaries: wrong observations the model must flag
 	{
 		c := newCtx(r, kr, 4)
@@ -966,6 +969,12 @@ func replay(raw json.RawMessage) string {
 		return ""
 	case "chain", "chain-setup":
 		return replayChain(raw)
+	case "fastsync", "fastsync-setup":
+		var in fsIn
+		if err := json.Unmarshal(raw, &in); err != nil {
+			return "bad replay input: " + err.Error()
+		}
+		return replayFastSync(in)
 	}
 	return "unknown case type " + t.T
 }
@@ -973,7 +982,7 @@ func replay(raw json.RawMessage) string {
 func main() {
 	hxlib.Main(hxlib.Spec{
 		ID: "C05",
-		Rule: "validator sets of n=1..10 real secp256k1 keys in random order; for every n lists of k distinct valid precommit signatures for k in {0,1,f-1,f,f+1,f+2,n-1,n}, f=floor(2n/3), alone and with ONE more item added or one item replaced by: a foreign key's signature, a validator's signature over another round/height/block id/part-set hash/count/app data/nil-ness/vote type/timestamp, a bit-flipped r/s/v, an empty/zero/V-less/bad-V signature, a verbatim duplicate, a second signature of a signer (all kinds at k=f and k=f+1, a sample elsewhere); signatures made both by the harness's own encoding and by the implementation's vote constructor; height 0, nil and empty validator lists; the same lists through BlockManager.Propose and ImportBlock on a fixture chain; enoughVote on a grid. non-trivial = non-empty list against a non-empty validator set at height>0; distinct = distinct Coq case term",
+		Rule: "validator sets of n=1..10 real secp256k1 keys in random order; for every n lists of k distinct valid precommit signatures for k in {0,1,f-1,f,f+1,f+2,n-1,n}, f=floor(2n/3), alone and with ONE more item added or one item replaced by: a foreign key's signature, a validator's signature over another round/height/block id/part-set hash/count/app data/nil-ness/vote type/timestamp, a bit-flipped r/s/v, an empty/zero/V-less/bad-V signature, a verbatim duplicate, a second signature of a signer (all kinds at k=f and k=f+1, a sample elsewhere); signatures made both by the harness's own encoding and by the implementation's vote constructor; height 0, nil and empty validator lists; the same lists through BlockManager.Propose and Import on a fixture chain, and through the consensus engine's fast-sync entry (ReceiveBlockResult -> processBlock) on a syncing node; enoughVote on a grid. non-trivial = non-empty list against a non-empty validator set at height>0; distinct = distinct Coq case term",
 		Gen:  gen, Replay: replay,
 	})
 }
